@@ -8,7 +8,7 @@ use debian_control::lossy::{Relation as LRel, Relations as LRels};
 use debian_control::relations::{BuildProfile, VersionConstraint};
 use std::str::FromStr;
 
-fn dec_op(op: &str) -> Option<VersionConstraint> {
+pub fn dec_op(op: &str) -> Option<VersionConstraint> {
     Some(match op {
         "ge" => VersionConstraint::GreaterThanEqual,
         "le" => VersionConstraint::LessThanEqual,
@@ -18,7 +18,7 @@ fn dec_op(op: &str) -> Option<VersionConstraint> {
         _ => return None,
     })
 }
-fn op_name(vc: &VersionConstraint) -> &'static str {
+pub fn op_name(vc: &VersionConstraint) -> &'static str {
     match vc {
         VersionConstraint::GreaterThanEqual => "ge",
         VersionConstraint::LessThanEqual => "le",
@@ -36,7 +36,7 @@ fn dec_ver(h: &str) -> Option<Option<(VersionConstraint, debversion::Version)>> 
     Some(Some((dec_op(op)?, ds(t)?.parse().ok()?)))
 }
 
-fn dec_group(h: &str) -> Option<Vec<BuildProfile>> {
+pub fn dec_group(h: &str) -> Option<Vec<BuildProfile>> {
     let r = h.strip_prefix('G')?;
     if r.is_empty() {
         return Some(vec![]);
@@ -106,7 +106,7 @@ pub fn enc_lossy_rel_req(r: &LRel) -> String {
     format!("{}:{}:{}:{}:{}", es(&r.name), eopt(r.archqual.as_deref()), ver, archs, profs)
 }
 
-fn dec_lossy_rels(h: &str) -> Option<Vec<Vec<LRel>>> {
+pub fn dec_lossy_rels(h: &str) -> Option<Vec<Vec<LRel>>> {
     if h.is_empty() {
         return Some(vec![]);
     }
@@ -159,12 +159,12 @@ pub fn enc_lossy_rel(r: &LRel) -> String {
     format!("name={};aq={};ver={};arch={};prof={}", es(&r.name), eopt(r.archqual.as_deref()), ver, arch, prof)
 }
 
-fn is_ident(s: &str) -> bool {
+pub fn is_ident(s: &str) -> bool {
     !s.is_empty() && s.chars().all(|c| c.is_ascii_alphanumeric() || c == '-' || c == '.' || c == '+' || c == '~')
 }
 
 /// mirror of `RelSpec.validVersion`
-fn valid_version(v: &debversion::Version) -> bool {
+pub fn valid_version(v: &debversion::Version) -> bool {
     let body = match &v.debian_revision {
         Some(r) => format!("{}-{}", v.upstream_version, r),
         None => v.upstream_version.clone(),
@@ -232,109 +232,111 @@ fn lossless_expect(rs: &[Vec<LRel>]) -> String {
     s
 }
 
-pub fn handle(op: &str, a: &[&str]) -> Option<Resp> {
-    match (op, a) {
-        ("rel.lrel", [h]) => {
-            let r = dec_lossy_rel(h)?;
-            let printed = r.to_string();
-            let rt = LRel::from_str(&printed);
-            let rt_s = match &rt {
-                Ok(x) => format!("ok {}", enc_lossy_rel(x)),
-                Err(_) => "err".to_string(),
-            };
-            let lossless = guarded(|| ll::Relation::from(r.clone()));
-            let bk = match &lossless {
-                None => "-".to_string(),
+/// the whole `rel.lrel` answer (observables + the C14 oracle) for one lossy value
+pub fn lrel_resp(r: LRel) -> Resp {
+    let printed = r.to_string();
+    let rt = LRel::from_str(&printed);
+    let rt_s = match &rt {
+        Ok(x) => format!("ok {}", enc_lossy_rel(x)),
+        Err(_) => "err".to_string(),
+    };
+    let lossless = guarded(|| ll::Relation::from(r.clone()));
+    let bk = match &lossless {
+        None => "-".to_string(),
+        Some(l) => {
+            // `From<Relation>` consumes the relation: parse it again from the same tree dump is
+            // not possible, so convert a clone obtained through the builder once more
+            match guarded(|| LRel::from(ll::Relation::from(r.clone()))) {
+                Some(x) => {
+                    let _ = l;
+                    format!("ok {}", enc_lossy_rel(&x))
+                }
+                None => "PANIC".to_string(),
+            }
+        }
+    };
+    let lv = lossless_view(&printed, false);
+    let valid = valid_r(&r);
+    let mut fail = None;
+    // the oracle applies to every value of the text-clause domain (`ValidR`, `Some([])` included);
+    // the conversion clauses are evaluated in their exact form (C14More.C14_convert_exact): the
+    // lossless form is that of `norm_archs(r)`, which is `r` itself on the strong domain
+    if valid_r_weak(&r) {
+        let n = norm_archs(&r);
+        let nprinted = n.to_string();
+        if rt.as_ref().ok() != Some(&r) {
+            fail = Some(format!("lossy::Relation::from_str(r.to_string()) != r: {}", rt_s));
+        } else if lv != lossless_expect(&[vec![r.clone()]]) {
+            fail = Some(format!("lossless reader sees a different structure in r.to_string(): {}", lv));
+        } else {
+            // C14_lossless_reads_same_rel: the single-relation lossless reader
+            match guarded(|| ll::Relation::from_str(&printed).map(|t| (t.to_string(), LRel::from(t)))) {
+                Some(Ok((text, back))) => {
+                    if text != printed {
+                        fail = Some(format!("lossless::Relation::from_str(r.to_string()).to_string() = {:?}", text));
+                    } else if back != r {
+                        fail = Some(format!(
+                            "lossy::Relation::from(lossless::Relation::from_str(r.to_string())) != r: {}",
+                            enc_lossy_rel(&back)
+                        ));
+                    }
+                }
+                Some(Err(e)) => fail = Some(format!("lossless::Relation::from_str(r.to_string()) fails: {}", e)),
+                None => fail = Some("lossless::Relation::from_str(r.to_string()) or its accessors panic".to_string()),
+            }
+        }
+        if fail.is_none() {
+            match &lossless {
+                None => fail = Some("lossless::Relation::from(lossy) panics".to_string()),
                 Some(l) => {
-                    // `From<Relation>` consumes the relation: parse it again from the same tree dump is
-                    // not possible, so convert a clone obtained through the builder once more
-                    match guarded(|| LRel::from(ll::Relation::from(r.clone()))) {
-                        Some(x) => {
-                            let _ = l;
-                            format!("ok {}", enc_lossy_rel(&x))
-                        }
-                        None => "PANIC".to_string(),
-                    }
-                }
-            };
-            let lv = lossless_view(&printed, false);
-            let valid = valid_r(&r);
-            let mut fail = None;
-            // the oracle applies to every value of the text-clause domain (`ValidR`, `Some([])` included);
-            // the conversion clauses are evaluated in their exact form (C14More.C14_convert_exact): the
-            // lossless form is that of `norm_archs(r)`, which is `r` itself on the strong domain
-            if valid_r_weak(&r) {
-                let n = norm_archs(&r);
-                let nprinted = n.to_string();
-                if rt.as_ref().ok() != Some(&r) {
-                    fail = Some(format!("lossy::Relation::from_str(r.to_string()) != r: {}", rt_s));
-                } else if lv != lossless_expect(&[vec![r.clone()]]) {
-                    fail = Some(format!("lossless reader sees a different structure in r.to_string(): {}", lv));
-                } else {
-                    // C14_lossless_reads_same_rel: the single-relation lossless reader
-                    match guarded(|| ll::Relation::from_str(&printed).map(|t| (t.to_string(), LRel::from(t)))) {
-                        Some(Ok((text, back))) => {
-                            if text != printed {
-                                fail = Some(format!("lossless::Relation::from_str(r.to_string()).to_string() = {:?}", text));
-                            } else if back != r {
-                                fail = Some(format!(
-                                    "lossy::Relation::from(lossless::Relation::from_str(r.to_string())) != r: {}",
-                                    enc_lossy_rel(&back)
-                                ));
-                            }
-                        }
-                        Some(Err(e)) => fail = Some(format!("lossless::Relation::from_str(r.to_string()) fails: {}", e)),
-                        None => fail = Some("lossless::Relation::from_str(r.to_string()) or its accessors panic".to_string()),
-                    }
-                }
-                if fail.is_none() {
-                    match &lossless {
-                        None => fail = Some("lossless::Relation::from(lossy) panics".to_string()),
-                        Some(l) => {
-                            if l.to_string() != nprinted {
-                                fail = Some(format!(
-                                    "lossless::Relation::from(lossy).to_string() = {:?} != {:?} (the lossy text, an empty architecture list dropped)",
-                                    l.to_string(),
-                                    nprinted
-                                ));
-                            } else if bk != format!("ok {}", enc_lossy_rel(&n)) {
-                                fail = Some(format!(
-                                    "lossy::Relation::from(lossless::Relation::from(r)) != r (an empty architecture list dropped): {}",
-                                    bk
-                                ));
-                            } else {
-                                // C14_parse_is_built(_norm): the parser returns the builder's tree
-                                match guarded(|| ll::Relation::from_str(&nprinted).map(|t| t.verif_dump())) {
-                                    Some(Ok(d)) => {
-                                        if d != l.verif_dump() {
-                                            fail = Some(format!(
-                                                "lossless::Relation::from_str({:?}) builds {} but Relation::from(lossy) builds {}",
-                                                nprinted,
-                                                d,
-                                                l.verif_dump()
-                                            ));
-                                        }
-                                    }
-                                    _ => fail = Some(format!("lossless::Relation::from_str({:?}) fails", nprinted)),
+                    if l.to_string() != nprinted {
+                        fail = Some(format!(
+                            "lossless::Relation::from(lossy).to_string() = {:?} != {:?} (the lossy text, an empty architecture list dropped)",
+                            l.to_string(),
+                            nprinted
+                        ));
+                    } else if bk != format!("ok {}", enc_lossy_rel(&n)) {
+                        fail = Some(format!(
+                            "lossy::Relation::from(lossless::Relation::from(r)) != r (an empty architecture list dropped): {}",
+                            bk
+                        ));
+                    } else {
+                        // C14_parse_is_built(_norm): the parser returns the builder's tree
+                        match guarded(|| ll::Relation::from_str(&nprinted).map(|t| t.verif_dump())) {
+                            Some(Ok(d)) => {
+                                if d != l.verif_dump() {
+                                    fail = Some(format!(
+                                        "lossless::Relation::from_str({:?}) builds {} but Relation::from(lossy) builds {}",
+                                        nprinted,
+                                        d,
+                                        l.verif_dump()
+                                    ));
                                 }
                             }
+                            _ => fail = Some(format!("lossless::Relation::from_str({:?}) fails", nprinted)),
                         }
                     }
                 }
             }
-            Some(Resp::with(
-                format!(
-                    "P:{} RT:{} LL:{} BK:{} LV:{} valid={}",
-                    es(&printed),
-                    rt_s,
-                    show_ll_rel(&lossless),
-                    bk,
-                    lv,
-                    ebool(valid)
-                ),
-                fail,
-            ))
         }
+    }
+    Resp::with(
+        format!(
+            "P:{} RT:{} LL:{} BK:{} LV:{} valid={}",
+            es(&printed),
+            rt_s,
+            show_ll_rel(&lossless),
+            bk,
+            lv,
+            ebool(valid)
+        ),
+        fail,
+    )
+}
+
+pub fn handle(op: &str, a: &[&str]) -> Option<Resp> {
+    match (op, a) {
+        ("rel.lrel", [h]) => Some(lrel_resp(dec_lossy_rel(h)?)),
         ("rel.lrels", [h]) => {
             let rs = dec_lossy_rels(h)?;
             let val = LRels(rs.clone());
